@@ -2,13 +2,14 @@
 # usage: seedconfirm.sh <seed-dir> <worktree> [demo-subdir]   -- confirm a seeded change: tests pass with it, demo fails with it and passes without
 export GOFLAGS=-mod=mod GOPROXY=off GOSUMDB=off GOTOOLCHAIN=local
 d=$1; wt=$2; sub=${3:-.}
+RACE=""; grep -q '"race_flag": *true' $d/meta.json 2>/dev/null && RACE="-race"
 cd $wt && git checkout -q -- . && rm -f $sub/demo_test.go
 git apply $d/patch.diff || { echo "CONFIRM-FAIL patch does not apply"; exit 1; }
 go build ./... || { echo "CONFIRM-FAIL build"; git checkout -q -- .; exit 1; }
 go test -vet=off -count=1 ./... >/tmp/sc.out 2>&1 || { echo "CONFIRM-FAIL suite fails with patch"; tail -5 /tmp/sc.out; git checkout -q -- .; exit 1; }
 cp $d/demo_test.go $sub/demo_test.go
-if go test -vet=off -count=1 ./$sub/ >/tmp/sc.out 2>&1; then echo "CONFIRM-FAIL demo passes with patch"; git checkout -q -- .; rm -f $sub/demo_test.go; exit 1; fi
+if go test $RACE -vet=off -count=1 ./$sub/ >/tmp/sc.out 2>&1; then echo "CONFIRM-FAIL demo passes with patch"; git checkout -q -- .; rm -f $sub/demo_test.go; exit 1; fi
 git checkout -q -- .
-go test -vet=off -count=1 ./$sub/ >/tmp/sc.out 2>&1 || { echo "CONFIRM-FAIL demo fails without patch"; tail -5 /tmp/sc.out; rm -f $sub/demo_test.go; exit 1; }
+go test $RACE -vet=off -count=1 ./$sub/ >/tmp/sc.out 2>&1 || { echo "CONFIRM-FAIL demo fails without patch"; tail -5 /tmp/sc.out; rm -f $sub/demo_test.go; exit 1; }
 rm -f $sub/demo_test.go
 echo "CONFIRMED $d"
